@@ -12,6 +12,25 @@ use std::sync::atomic::{AtomicI64, Ordering};
 
 pub const ORACLE_FLAGS: &[&str] = &["-Werror=incompatible-pointer-types", "-Werror=int-conversion", "-Werror=implicit-function-declaration", "-ferror-limit=0"];
 
+/// results of the `wrap_as_variadic` cases (harness/src/bin/c16/va.rs; empty unless built with feature `va`)
+#[derive(Default)]
+pub struct VaResults {
+    pub built: bool,
+    pub cases: u64,
+    pub functions: u64,
+    /// wrappers whose emitted text was compared with the model's (all shapes / wrapped as variadic)
+    pub compared: u64,
+    pub compared_variadic: u64,
+    pub distinct: BTreeSet<String>,
+    pub disagreements: Vec<J>,
+    pub failures: Vec<J>,
+    pub machinery: Vec<J>,
+    pub known: Vec<(String, J)>,
+    pub stats: BTreeMap<String, u64>,
+    pub samples: Vec<J>,
+    pub distribution: BTreeMap<String, u64>,
+}
+
 #[derive(Default)]
 pub struct OracleOut {
     pub failures: Vec<J>,
@@ -348,7 +367,7 @@ pub fn run_all(preps: &[Prep], cpp_link_budget: i64, verbose: bool) -> Vec<Oracl
     slots.into_iter().map(|m| m.into_inner().unwrap().unwrap_or_default()).collect()
 }
 
-pub fn report(args: &Args, a: bool, preps: &[Prep], outs: &[OracleOut]) -> J {
+pub fn report(args: &Args, a: bool, preps: &[Prep], outs: &[OracleOut], va: &VaResults) -> J {
     let mut kind_hist = BTreeMap::new();
     let mut modes: BTreeMap<String, u64> = BTreeMap::new();
     let mut planted: BTreeMap<String, u64> = BTreeMap::new();
@@ -433,12 +452,37 @@ pub fn report(args: &Args, a: bool, preps: &[Prep], outs: &[OracleOut]) -> J {
             }
         }
     }
+    // the `wrap_as_variadic` cases: same lists, own counters
+    compared += va.compared;
+    functions += va.functions;
+    distinct.extend(va.distinct.iter().cloned());
+    disagreements.extend(va.disagreements.iter().cloned());
+    failures.extend(va.failures.iter().cloned());
+    machinery.extend(va.machinery.iter().cloned());
+    for (id, j) in &va.known {
+        let e = known.entry(id.clone()).or_insert((0, j.clone()));
+        e.0 += 1;
+    }
+    samples.extend(va.samples.iter().cloned());
+    let va_json = J::obj(vec![
+        ("built_with_feature_va", J::B(va.built)),
+        ("cases", J::N(va.cases as i64)),
+        ("functions", J::N(va.functions as i64)),
+        ("wrappers_compared_with_model_text", J::N(va.compared as i64)),
+        ("variadic_wrappers_compared_with_model_text", J::N(va.compared_variadic as i64)),
+        ("distinct_variadic_signatures", J::N(va.distinct.len() as i64)),
+        ("model_disagreements", J::N(va.disagreements.len() as i64)),
+        ("oracle_failures", J::N(va.failures.len() as i64)),
+        ("oracle", J::map(&va.stats)),
+        ("input_distribution", J::map(&va.distribution)),
+    ]);
     let head = |v: &Vec<J>| J::A(v.iter().take(8).cloned().collect());
     J::obj(vec![
+        ("va", va_json),
         ("tier", J::s(&args.tier)),
         ("seed", J::N(args.seed as i64)),
         ("array_arm_in_declarator", J::B(a)),
-        ("cases", J::N(preps.len() as i64)),
+        ("cases", J::N(preps.len() as i64 + va.cases as i64)),
         ("functions", J::N(functions as i64)),
         ("evaluations", J::N(compared as i64)),
         ("distinct_nontrivial", J::N(distinct.len() as i64)),
